@@ -105,6 +105,19 @@ def target_owner(case):
     return own
 
 
+def _res_task_ids(case, cr):
+    """task ids of the `task_dep` entries of a calc result: literal names, and for an entry with `*` every task whose
+    name matches, in definition order -- what a wildcard task_dep means everywhere else in doit (TaskControl expands the
+    static ones at start-up).  NOTE: doit itself DROPS a wildcard that arrives in a calc result (open finding
+    calc-wild-dep-dropped); the harness and the model state what it should mean."""
+    idx = task_index(case)
+    out = [idx[x] for x in cr.get('task_dep', []) if '*' not in x]
+    for x in cr.get('task_dep', []):           # matches after the literal names, as for a static task_dep list
+        if '*' in x:
+            out += [j for j, s in enumerate(case['tasks']) if fnmatch.fnmatch(s['name'], x)]
+    return out
+
+
 def _set_order(items):
     """iteration order of the python `set` doit builds by adding `items` one by one (Task._expand_file_dep,
     Task._init_getargs): depends on the string hashes of *this* process, exactly as in doit"""
@@ -159,7 +172,7 @@ def expand(case):
         if not delivers:
             calc_res.append(None)
         else:
-            calc_res.append({'task': [idx[x] for x in cr.get('task_dep', [])],
+            calc_res.append({'task': _res_task_ids(case, cr),
                              'file': [own[f] for f in cr.get('file_dep', []) if f in own],
                              'calc': [idx[x] for x in cr.get('calc_dep', [])]})
     # what a calc task delivers although its execution FAILED (_process_calc_dep_results reads task.values whatever the
@@ -171,7 +184,7 @@ def expand(case):
         if cr is None or cr.get('as_str') or not late_fail or t['kind'] == 'group':
             calc_res_fail.append(None)
         else:
-            calc_res_fail.append({'task': [idx[x] for x in cr.get('task_dep', [])],
+            calc_res_fail.append({'task': _res_task_ids(case, cr),
                                   'file': [own[f] for f in cr.get('file_dep', []) if f in own],
                                   'calc': [idx[x] for x in cr.get('calc_dep', [])]})
     if case.get('sel') is None:
@@ -461,6 +474,7 @@ def gen_case(rng, n_min=3, n_max=9, runner=None, nproc=None, weights=None, p_gro
                         t[key].append(v['name'])
                 combo = t['name']
     has_wild = False
+    wild_pats = None
     if p_wild and rng.random() < p_wild:
         pats = ['zz*']
         for x in ranked:
@@ -471,6 +485,7 @@ def gen_case(rng, n_min=3, n_max=9, runner=None, nproc=None, weights=None, p_gro
             elif x['kind'] == 'task':
                 pats += [nm + '*', '*' + nm[1:], 't[0-%s]*' % nm[1:2], nm[0] + '*' + nm[-1]]
         pats = sorted(set(pats))
+        wild_pats = pats
         for _ in range(rng.choice([1, 1, 2])):
             r = rng.randrange(1, len(ranked))
             t = ranked[r]
@@ -550,6 +565,20 @@ def gen_case(rng, n_min=3, n_max=9, runner=None, nproc=None, weights=None, p_gro
                 if k == 'calc_dep':
                     receivers.setdefault(v['name'], set()).update(rec)
         t['calc_res'] = res
+    # ---- opt-in (p_wild): a wildcard inside the task_dep a calc task delivers
+    if wild_pats is not None and rng.random() < 0.3:
+        cands = [t for t in ranked if t['calc_res'] is not None and receivers.get(t['name'])]
+        if cands:
+            t = rng.choice(cands)
+            low = min(rank[x] for x in receivers[t['name']])
+            ok = [q for q in wild_pats
+                  if [x for x in ranked if fnmatch.fnmatch(x['name'], q)]
+                  and all(rank[x['name']] < low and x['name'] != t['name'] for x in ranked
+                          if fnmatch.fnmatch(x['name'], q))]
+            if ok:
+                t['calc_res']['task_dep'].append(rng.choice(ok))
+                case['wild_calc'] = t['name']
+                has_wild = True
     # ---- opt-in: keys of a calc result that the dispatcher does not consume
     if p_calc_extra and rng.random() < p_calc_extra:
         for t in ranked:
@@ -827,6 +856,8 @@ def rename_tasks(case, mapping):
         case['combo'] = m(case['combo'])
     if case.get('ctf') is not None:
         case['ctf'] = m(case['ctf'])
+    if case.get('wild_calc') is not None:
+        case['wild_calc'] = m(case['wild_calc'])
 
 
 def apply_meta_names(case, rng, p_each=0.6):
@@ -878,7 +909,7 @@ def _all_deliver(model, case):
     res = []
     for t in case['tasks']:
         cr = t.get('calc_res')
-        res.append(None if cr is None else {'task': [idx[x] for x in cr.get('task_dep', [])],
+        res.append(None if cr is None else {'task': _res_task_ids(case, cr),
                                             'file': [own[f] for f in cr.get('file_dep', []) if f in own],
                                             'calc': [idx[x] for x in cr.get('calc_dep', [])]})
     m['calcRes'] = res
@@ -911,6 +942,8 @@ def count_case(st, case, obs=None):
         st.count('names:metachars')
     if case.get('combo') is not None:
         st.count('combo:calc+task+setup')
+    if any('*' in _x for _t in case['tasks'] for _x in (_t.get('calc_res') or {}).get('task_dep', [])):
+        st.count('wild_dep:delivered_by_calc_result')
     if case.get('scale'):
         _n = case['scale']['n']
         st.count('scale:%s' % case['scale']['shape'])
@@ -2247,8 +2280,8 @@ def _deps_at(model, case, trace, t, upto):
         cr = case['tasks'][c].get('calc_res')
         if cr is None or cr.get('as_str') or c not in succeeded:
             continue
-        for x in cr.get('task_dep', []):
-            deps.add(idx[x])
+        for x in _res_task_ids(case, cr):
+            deps.add(x)
         for f in cr.get('file_dep', []):
             if f in own:
                 deps.add(own[f])
@@ -2337,7 +2370,7 @@ def closure_of(case, trace):
             cr = case['tasks'][c].get('calc_res')
             if cr is None or cr.get('as_str') or c not in succeeded:
                 continue
-            new += [idx[x] for x in cr.get('task_dep', [])]
+            new += _res_task_ids(case, cr)
             new += [own[f] for f in cr.get('file_dep', []) if f in own]
             for x in cr.get('calc_dep', []):
                 new.append(idx[x])
@@ -2467,6 +2500,39 @@ def sig_dup_selection(witness):
     return m['C02_at_most_once'] and m['C02_inside_closure'] and m['C02_all_processed']
 
 
+def strip_calc_wildcards(case):
+    """the case as doit really treats it: wildcard entries of delivered task_deps removed"""
+    c = json.loads(json.dumps({k: v for k, v in case.items() if k != 'model'}))
+    hit = False
+    for t in c['tasks']:
+        cr = t.get('calc_res')
+        if cr and any('*' in x for x in cr.get('task_dep', [])):
+            cr['task_dep'] = [x for x in cr['task_dep'] if '*' not in x]
+            hit = True
+    if not hit:
+        return None
+    c['model'] = expand(c)
+    return c
+
+
+def sig_calc_wild_dropped(witness):
+    """SIGNATURE of the open finding `calc-wild-dep-dropped`: a calc result of the case delivers a task_dep with `*`,
+    and judged against the case WITHOUT those entries (what doit does: the pattern lands in Task.wild_dep, which is
+    only expanded at start-up) the same trace satisfies every C01 and C02 monitor"""
+    c2 = strip_calc_wildcards(witness.get('case') or {})
+    if c2 is None:
+        return False
+    tr = witness.get('trace') or []
+    m1 = py_monitor_c01(c2, tr)
+    m2 = py_monitor_c02(c2, tr, witness.get('exit'), witness.get('err'))
+    return bool(m1['C01_order'] and m1['C01_no_overlap'] and m2['C02_at_most_once'] and m2['C02_inside_closure']
+                and (m2['C02_all_processed'] or witness.get('err') is not None))
+
+
+def known_sig(witness):
+    return (bool(sig_dup_selection(witness)), bool(sig_calc_wild_dropped(witness)))
+
+
 def make_witness(case, obs, failed, py, lean, detail):
     return {'case': {k: v for k, v in case.items() if k != 'model'} | {'schedule': obs.get('schedule')},
             'rendered': render(case).split('\n'), 'trace': obs['trace'], 'trace_text': render_trace(case, obs['trace']),
@@ -2503,7 +2569,7 @@ def judge(prop, case, obs, ans, st, shrink_left):
     if failed:
         first = failed[0]
         wit0 = make_witness(case, obs, failed, py, lean, pywit)
-        known0 = sig_dup_selection(wit0)
+        known0 = known_sig(wit0)
 
         def still(c):
             o = run_impl(c, keep_raw=False)
@@ -2513,7 +2579,7 @@ def judge(prop, case, obs, ans, st, shrink_left):
                 bad = bad or ['C02_all_processed']
             if first not in bad:
                 return False
-            return sig_dup_selection(make_witness(c, o, bad, p, None, w)) == known0
+            return known_sig(make_witness(c, o, bad, p, None, w)) == known0
         small = case
         if shrink_left > 0 and (not py.get(first, True) or obs['err']):
             t0 = time.time()
@@ -2556,6 +2622,19 @@ def judge(prop, case, obs, ans, st, shrink_left):
             st.divergence(make_witness(case, obs, disagree, py, lean, pywit),
                           'python and Lean monitors disagree on %s' % disagree)
         elif not ans.get('accepted') and not ans.get('skipped'):
+            c2 = strip_calc_wildcards(case)
+            if c2 is not None:
+                # open finding calc-wild-dep-dropped: doit ignores a wildcard inside a delivered task_dep.  When the
+                # model accepts the trace for the case WITHOUT those entries, this run shows exactly that defect (here
+                # without a monitor turning false: the matching tasks happened to be processed anyway)
+                a2 = ask_model([(c2, obs)])[0]
+                if 'error' not in a2 and a2.get('accepted'):
+                    st.count('known_shape:calc_wild_dep_dropped_by_doit')
+                    st.violation(make_witness(case, obs, [], py, lean, {'wildcard_in_calc_result_ignored': True}),
+                                 'correspondence:calc-wild-dep-dropped',
+                                 'the implementation trace is one of the model only when the wildcard task_dep a calc '
+                                 'task delivered is ignored')
+                    return used
             w = make_witness(case, obs, [], py, lean, {})
             w['matched'] = ans.get('matched')
             w['expected'] = ans.get('expected')
@@ -2742,6 +2821,8 @@ def replay_witness(prop, data):
         print('FAILED monitors:', bad)
         if sig_dup_selection(make_witness(case, obs, [b for b in bad if b in keys], py, lean, wit)):
             print('(this is the open known finding dup-selection-truncates)')
+        if sig_calc_wild_dropped(make_witness(case, obs, [b for b in bad if b in keys], py, lean, wit)):
+            print('(this is the open known finding calc-wild-dep-dropped)')
     if lean is not None and not bad:
         print('model accepts the trace:', ans.get('accepted'), '' if ans.get('accepted') else
               '(matched %s, model could emit %s)' % (ans.get('matched'), ans.get('expected')))
